@@ -472,6 +472,46 @@ func shapeFacts() map[string]any {
 		chaseOK = label != 0 && check != 0 && jump != 0 && len(ex) > 0 && label < check && check < minPos(ex) && minPos(ex) < jump
 	}
 	out["shape_chase_checks_deadline"] = chaseOK
+
+	// every resolveState literal (the restart states included) carries the request tree's ledger
+	lits, withWork := 0, 0
+	if res != nil {
+		ast.Inspect(res.file, func(x ast.Node) bool {
+			cl, ok := x.(*ast.CompositeLit)
+			if !ok {
+				return true
+			}
+			if id, ok := cl.Type.(*ast.Ident); !ok || id.Name != "resolveState" {
+				return true
+			}
+			lits++
+			for _, e := range cl.Elts {
+				if kv, ok := e.(*ast.KeyValueExpr); ok {
+					if k, ok := kv.Key.(*ast.Ident); ok && k.Name == "work" {
+						withWork++
+					}
+				}
+			}
+			return true
+		})
+	}
+	out["shape_resolvestate_literals_carry_work"] = lits > 0 && lits == withWork
+
+	// the cache decides "may this failure be shared" on the ledger as it is at that moment:
+	// cacheableResolutionFailure(ctx, res) takes no precomputed verdict and asks the ledger itself
+	decideOK := false
+	if fd := cf.fn("", "cacheableResolutionFailure"); fd != nil {
+		nparams := 0
+		for _, f := range fd.Type.Params.List {
+			n := len(f.Names)
+			if n == 0 {
+				n = 1
+			}
+			nparams += n
+		}
+		decideOK = nparams == 2 && len(callsNamed(fd.Body, "RecursionWorkEnforcementError")) > 0
+	}
+	out["shape_cacheable_reads_ledger_at_decision"] = decideOK
 	return out
 }
 
